@@ -221,6 +221,8 @@ package analysis
 //@ func NewVarList(m)
 //@   trusted
 //@   modifies nothing
+//@ func allBound(vars, boundVars)
+//@   modifies nothing
 //@ func scrutineeIsInputArg(d)
 //@   trusted
 //@   modifies nothing
